@@ -542,9 +542,36 @@ def http_burst(rng, rounds, t=10, i=3):
 
 # ------------------------------------------------------------------------ generate ----
 
+def concurrent_writers(rng, kind, lanes, per_lane, tag, **kw):
+    """several writers per end at once (goat's client multiplexer writes from every calling goroutine, a server's
+    handlers through one writer): every envelope arrives exactly once and unchanged, the envelopes of one writer in
+    its program order; envelopes of different writers overlap and may arrive either way"""
+    s = Script(kind, '%s concurrent writers lanes=%d x %d %s' % (kind, lanes, per_lane, tag), **kw)
+    g = ValGen(rng, big_every=7)
+    ids = []
+    for frm in ('a', 'b'):
+        writes = [(ln, g.val()) for ln in range(1, lanes + 1) for _ in range(per_lane)]
+        rng.shuffle(writes)              # (per lane the order of issue is the lane's program order)
+        if rng.random() < 0.5:
+            ids += [s.op('r', end=other(frm)) for _ in writes]
+            ids += [s.op('w', end=frm, v=v, lane=ln) for ln, v in writes]
+        else:
+            ids += [s.op('w', end=frm, v=v, lane=ln) for ln, v in writes]
+            ids += [s.op('r', end=other(frm)) for _ in writes]
+    s.wait(ids)
+    s.ctl('q')
+    return s.done()
+
+
 def generate(tier, rng):
     quick = tier != 'thorough'
     out = []
+    for _ in range(2 if quick else 12):
+        for lanes, per in ((2, 6), (4, 5), (8, 10)):
+            out.append(concurrent_writers(rng, 'websocket', lanes, per, 'compress=False', compress=False))
+            out.append(concurrent_writers(rng, 'channel', lanes, per, 'cap=0', cap=0))
+        out.append(concurrent_writers(rng, 'websocket', 4, 8, 'compress=True', compress=True))
+        out.append(concurrent_writers(rng, 'channel', 4, 8, 'cap=4', cap=4))
     # values: ~ per transport 120..300 (quick) / ~5000 (thorough)
     reps = 1 if quick else 22
     n = 12 if quick else 20
